@@ -186,6 +186,20 @@ func (g *G) spellCC(ds []directive) []string {
 			continue
 		}
 		arg := d.arg
+		if strings.HasPrefix(arg, `"`) && len(arg) > 2 && g.chance(0.3) {
+			// a quoted argument whose content is a token may be written as the token (a one-member field list, a number)
+			inner := arg[1 : len(arg)-1]
+			tok := true
+			for i := 0; i < len(inner); i++ {
+				ch := inner[i]
+				if !(ch >= 'a' && ch <= 'z' || ch >= 'A' && ch <= 'Z' || ch >= '0' && ch <= '9' || ch == '-' || ch == '_' || ch == '.') {
+					tok = false
+				}
+			}
+			if tok {
+				arg = inner
+			}
+		}
 		if !strings.HasPrefix(arg, `"`) {
 			switch g.intn(4) {
 			case 0:
